@@ -927,14 +927,14 @@ def check_header(h, payload):
     try:
         octets = impl_encode_raw(h, payload)
     except Exception as e:
-        return {'kind': 'encode-exception', 'header': _show(h), 'exc': repr(e)[:200]}
+        return {'kind': 'encode-exception', 'header': _show(h), 'payload': bytes(payload).hex(), 'payload_octets': len(payload), 'exc': repr(e)[:200]}
     want = bytes(spec20_1(h)) + bytes(payload)
     if octets != want:
         return {'kind': 'layout', 'header': _show(h), 'payload': bytes(payload).hex(), 'got': octets.hex(), 'want': want.hex()}
     try:
         d, rest = impl_decode_raw(octets)
     except Exception as e:
-        return {'kind': 'decode-exception', 'header': _show(h), 'octets': octets.hex(), 'exc': repr(e)[:200]}
+        return {'kind': 'decode-exception', 'header': _show(h), 'octets': octets.hex(), 'octets_len': len(octets), 'exc': repr(e)[:200]}
     if rest != bytes(payload):
         return {'kind': 'payload-changed', 'header': _show(h), 'octets': octets.hex(), 'payload': bytes(payload).hex(), 'got': rest.hex()}
     if d['apduType'] != h['apduType']:
@@ -971,7 +971,7 @@ def check_typed(h, payload):
     try:
         octets, d, rest, got_cls, want_cls = _typed(h, payload)
     except Exception as e:
-        return {'kind': 'typed-exception', 'header': _show(h), 'exc': repr(e)[:200]}
+        return {'kind': 'typed-exception', 'header': _show(h), 'payload': bytes(payload).hex(), 'payload_octets': len(payload), 'exc': repr(e)[:200]}
     want = bytes(spec20_1(h)) + bytes(payload)
     if octets != want:
         return {'kind': 'typed-layout', 'header': _show(h), 'payload': bytes(payload).hex(), 'got': octets.hex(), 'want': want.hex()}
@@ -997,7 +997,7 @@ def check_arbitrary(bs):
     except DecodingError:
         return None, False
     except Exception as e:
-        return {'kind': 'decode-other-error', 'octets': bs.hex(), 'exc': repr(e)[:200]}, False
+        return {'kind': 'decode-other-error', 'octets': bs.hex(), 'octets_len': len(bs), 'exc': repr(e)[:200]}, False
     t = d['apduType']
     if not (isinstance(t, int) and 0 <= t <= 7 and t == bs[0] >> 4):
         return {'kind': 'decode-bad-type', 'octets': bs.hex(), 'decoded': _show(d)}, False
@@ -1208,7 +1208,13 @@ def replay(payload):
                 print('correspondence: implementation', mc.get('implementation'), 'model', mc.get('model'))
             elif isinstance(b, dict):
                 print('broken:', b.get('what'))
-    print('replay', f)
+    print('replay', {k: (v if len(str(v)) < 400 else str(v)[:400] + '...') for k, v in f.items()})
+    if 'payload_pattern' in f:
+        n, k = f['payload_pattern']
+        if f.get('op') == 'decode':
+            f = dict(f, octets=(bytes.fromhex(f['prefix']) + pat(n, k)).hex())
+        else:
+            f = dict(f, payload=pat(n, k).hex())
     if 'session' in f:
         ops = f['session']
         print('implementation session:', impl_session(ops))
